@@ -68,9 +68,9 @@ package sm4
 //@ func (*sm4CipherAsm).EncryptBlocks property C02,C03
 //@   requires c != nil && c.blocksSize == ite(useAVX2, 128, 64)
 //@   panics iff len(src) < c.blocksSize || len(dst) < c.blocksSize || (sameobj(dst, src) && offof(dst) != offof(src) && offof(dst) < offof(src) + c.blocksSize && offof(src) < offof(dst) + c.blocksSize)
-//@   modifies dst[0..c.blocksSize]
+//@   modifies dst[0..ite(len(src) == 2 * c.blocksSize && len(dst) >= 2 * c.blocksSize, 2 * c.blocksSize, c.blocksSize)]
 
 //@ func (*sm4CipherAsm).DecryptBlocks property C02,C03
 //@   requires c != nil && c.blocksSize == ite(useAVX2, 128, 64)
 //@   panics iff len(src) < c.blocksSize || len(dst) < c.blocksSize || (sameobj(dst, src) && offof(dst) != offof(src) && offof(dst) < offof(src) + c.blocksSize && offof(src) < offof(dst) + c.blocksSize)
-//@   modifies dst[0..c.blocksSize]
+//@   modifies dst[0..ite(len(src) == 2 * c.blocksSize && len(dst) >= 2 * c.blocksSize, 2 * c.blocksSize, c.blocksSize)]
